@@ -8,10 +8,15 @@
      mashumaro/core/meta/helpers.py       iter_all_subclasses (l.735-738)
      mashumaro/types.py                   Discriminator.__post_init__
 
-   State  = classes in definition order (class id = position) + one registry (tag -> class) per
-            annotation site / Config root, created empty.
-   Ops    = Define parents own_tags(per key name) tagger_tags own_required_fields | Decode site present_keys present_fields.
-   This file holds only executable definitions (it must keep running when a proof breaks). *)
+   State  = classes in definition order (class id = position) + one registry (tag -> class) per site (one Annotated
+            occurrence: a holder field per call-time dialect, a codec; one per Config root), per nested class-level
+            dispatcher and per codec x nested dispatcher; all created empty.
+   Ops    = Define parents own_tags(per key name) tagger_tags(per tagger function) own_required_fields keyerror_hook
+          | Decode site present_keys(with hashable / unhashable values) present_fields
+          | DecodeSeq [(site, keys, fields)]   (one call of a holder with several discriminated fields)
+          | DecodeBad site                      (the input is not a mapping).
+   One dispatcher function for both modes; entering a class is a leaf (accept / reject / leak KeyError) or a nested
+   dispatcher of either mode.  This file holds only executable definitions (it must keep running when a proof breaks). *)
 From Coq Require Import List Arith Bool.
 Import ListNotations.
 
